@@ -668,6 +668,11 @@ func init() {
 							if n := calleeName(&x.Call); lossyFn(n) {
 								next = n
 							}
+							// the printed name of a type identifies it only up to its spelling: two function-local
+							// types, or models.User from two packages called models, print alike
+							if n := calleeName(&x.Call); strings.HasSuffix(n, "reflect.Type.String") || strings.HasSuffix(n, "reflect.Type.Name") || strings.HasSuffix(n, "reflect.Type.Kind") {
+								next = n
+							}
 							for _, a := range callArgs(&x.Call) {
 								kwalk(a, d+1, next)
 							}
@@ -719,6 +724,14 @@ func init() {
 							// loads through the receiver's fields count as the receiver
 							if strings.HasPrefix(accessPath(x), "param0") && fn.Signature.Recv() != nil && global {
 								bad = "the value cached in package-level storage depends on the instance (receiver) that computed it"
+							}
+							// a field of a local struct variable: whatever the variable was assigned as a whole
+							if fa, ok := x.X.(*ssa.FieldAddr); ok {
+								if al, ok := fa.X.(*ssa.Alloc); ok {
+									for _, st := range storesToCell(al) {
+										walk(st.Val, depth+1)
+									}
+								}
 							}
 						case *ssa.Alloc:
 							if refs := x.Referrers(); refs != nil {
